@@ -152,3 +152,26 @@ Proof.
   - right. exists [], r. reflexivity.
   - right. exists (Woken l :: pre), post. reflexivity.
 Qed.
+
+(* no lost wake-up: whenever the queue is empty no waiter is still blocked *)
+Lemma wq_inv_step s e : (w_len s = 0 -> w_blocked s = []) -> (w_len (wstep true s e) = 0 -> w_blocked (wstep true s e) = []).
+Proof.
+  intros Hinv. destruct e as [|i|]; simpl.
+  - discriminate.
+  - destruct (w_len s) eqn:E; simpl; [rewrite E; exact Hinv | discriminate].
+  - destruct (w_len s) as [|[|n]] eqn:E; simpl; [rewrite E; exact Hinv | reflexivity | discriminate].
+Qed.
+
+Theorem no_lost_wakeup tr : w_len (wrun true tr) = 0 -> w_blocked (wrun true tr) = [].
+Proof.
+  unfold wrun.
+  assert (H : forall s, (w_len s = 0 -> w_blocked s = []) ->
+                        w_len (fold_left (wstep true) tr s) = 0 -> w_blocked (fold_left (wstep true) tr s) = []).
+  { induction tr as [|e r IH]; intros s Hs; simpl; [exact Hs|]. apply IH. apply wq_inv_step. exact Hs. }
+  apply H. reflexivity.
+Qed.
+
+(* with a single-waiter signal instead of a broadcast a second waiter is lost *)
+Theorem lost_wakeup_with_signal :
+  exists tr, w_len (wrun false tr) = 0 /\ w_blocked (wrun false tr) <> [].
+Proof. exists [WSubmit; WEnter 1; WEnter 2; WDone]. vm_compute. split; [reflexivity | discriminate]. Qed.
